@@ -380,7 +380,7 @@ def main():
                         cross_checked_with_cvc5=dict(sampled=agg.get("xcheck", 0), agree=agg.get("xcheck", 0) - agg.get("xcheck_unknown", 0) - agg.get("xcheck_disagree", 0),
                                                      cvc5_unknown=agg.get("xcheck_unknown", 0), disagree=agg.get("xcheck_disagree", 0))),
             functions_executed_symbolically=sorted(fns),
-            bounds=getattr(mod, "BOUNDS", {}).get(tier, getattr(mod, "BOUNDS", {})) if isinstance(getattr(mod, "BOUNDS", {}), dict) else str(getattr(mod, "BOUNDS", "")),
+            bounds=_bounds(mod, tier),
             known_findings_printed=sorted(printed_known),
             inconclusive=[f"{c}/{l}: {m[:200]}" for c, l, m in inconclusive[:20]],
             harness_errors=[f"{c}/{l}: {m[:200]}" for c, l, m in harness_errors[:20]],
@@ -406,6 +406,17 @@ COMMON_ASSUMPTIONS = [
     "stubs in symx/shim.py and symx/lapack.py (exact stand-ins for LAPACK/scipy/FFT; linear_transpose and vmap by definition)",
     "rational-function identities are decided on the set where the denominators met during execution are non-zero",
 ]
+
+
+def _bounds(mod, tier):
+    b = getattr(mod, "BOUNDS", {})
+    if not isinstance(b, dict):
+        return str(b)
+    if tier in b:
+        out = {tier: b[tier]}
+        out.update({k: v for k, v in b.items() if k not in ("quick", "thorough")})
+        return out
+    return b
 
 
 def _z3v():
